@@ -411,6 +411,8 @@ func collectFmtFacts(w *World, ctxs map[string]*CtxInfo) *fmtFacts {
 }
 
 func runC09(w *World, r *Report) {
+	entryPointsKeepNoState(w, r, "C09", formatEntryRoots(w), "reachable from the formatter", "the formatter writes package-level storage: what it returns for a text depends on the texts it was given before (a remembered result is handed out for a text it was not made from)")
+
 	ctxs := w.ctxTable()
 	ff := collectFmtFacts(w, ctxs)
 	fns := formatterFuncs(w)
@@ -808,6 +810,8 @@ var positionalMethods = map[string]bool{"GetLine": true, "GetColumn": true, "Get
 	"GetTextFromTokens": true, "GetTextFromRuleContext": true, "GetSourceInterval": true, "GetAllText": true, "GetSource": true, "Index": true, "Seek": true}
 
 func runC10(w *World, r *Report) {
+	entryPointsKeepNoState(w, r, "C10", formatEntryRoots(w), "reachable from the formatter", "the formatter writes package-level storage: formatting a text a second time, or after another text, need not give what formatting it alone gives")
+
 	fns := formatterFuncs(w)
 	ctxs := w.ctxTable()
 	const rulePos = "C10/no-layout-input"
